@@ -953,6 +953,8 @@ def deepcopy(interp, v, memo=None):
             raise Unsupported("deepcopy of set needs hashing of model objects: %s" % e)
     from .interp import has_sym
 
+    if type(v).__module__ == "pyvc.shapely_model":
+        return v  # geometry values are immutable in the model
     if has_sym(v):
         raise Unsupported("deepcopy of %r" % type(v))
     return _copy.deepcopy(v)
@@ -1136,7 +1138,7 @@ def _np_norm(interp, args, kwargs):
     def nrm(items):
         s = _reduce_sum(interp, [_sbin(interp, ast.Mult, x, x) for x in items])
         if type(s) is Sym:
-            return ops.msqrt(interp.ctx, s, np_style=True)
+            return ops.msqrt(interp.ctx, s, np_style=True, nonneg=True)  # a sum of squares
         return np.float64(math.sqrt(s))
     if axis is None:
         return nrm(a.flat())
